@@ -355,9 +355,9 @@ Print Assumptions C06_t1_enclosing_cancellation_hides_timeout.
 (* audit T2: the block ends with a group holding the deadline cancellation and another error: cancelled_caught = True
    but the remainder is re-raised instead of TimeoutError *)
 Theorem C06_t2_group_remainder_instead_of_timeout :
-  let s := final step init ([ANewRoot] ++ AFailAt 1 (Some 5%Z) false :: [ASleep 1 None; ATick 5; ARun (HTimeout 1 1)]) in
-  let f := match k_waiter (tasks s 1) with Some f => f | None => 0 end in
-  let sa := final step s [ARun (HWake 1 f); AWrap 1 7] in
+  (* t2_state = final step init ([ANewRoot] ++ AFailAt 1 (Some 5) false :: [ASleep 1 None; ATick 5; ARun (HTimeout 1 1)]) *)
+  let f := match k_waiter (tasks t2_state 1) with Some f => f | None => 0 end in
+  let sa := final step t2_state [ARun (HWake 1 f); AWrap 1 7] in
   nscope (final step init [ANewRoot]) = 1 /\
   k_held (tasks sa 1) = Some (EGroup [ECancel 2; EErr 7]) /\ s_bydeadline (scopes sa 1) = true /\
   parent_visible sa 1 = false /\
